@@ -147,6 +147,7 @@ fn test(case: &Case, st: &mut Stats, counting: bool, nplans: usize, panics_only:
     let prepop = make_prepop(&case.base.prepop, &pool, depth, nlayers);
     let mut trace: Vec<String> = vec![];
     let mut facts = (0usize, 0usize, 0u64, 0u64, 0u64, 0usize, 0u64); // failing calls, deep walks, pend rd, pend md, pend total, scripts
+    let mut overlap_total = 0u64;
     let profile = if panics_only { Profile::Untyped } else { Profile::Typed };
     let runtime = rt();
     let res: Result<(), (usize, String)> = runtime.block_on(async {
@@ -171,6 +172,7 @@ fn test(case: &Case, st: &mut Stats, counting: bool, nplans: usize, panics_only:
         }
         let mut script_i = 0;
         let mut st_open = 0u64;
+        let mut st_overlap = 0u64;
         // every history ends with a walk over the whole tree (and one in the middle)
         let n_ops = case.base.ops.len();
         let walk_raw = RawOp { kind: 0, mode: 0, a: 0, b: 0, mode2: 1, c: 0, d: 0, data: DataSpec { kind: 0, len: 0, seed: 0 } };
@@ -228,6 +230,91 @@ fn test(case: &Case, st: &mut Stats, counting: bool, nplans: usize, panics_only:
                 let sa = asnapshot(&a.root).await;
                 if sa.tree != ss.tree {
                     return Err((step, format!("after open-handle create session on '{}': async tree differs from sync tree: {:?}", path, diff_trees(&ss.tree, &sa.tree))));
+                }
+                model = ss.tree;
+                continue;
+            }
+            // ... and now and then an append session OVERLAPS another complete call on the same
+            // file (a second append session, a re-creation, a removal) before it writes
+            if let (Op::Append(path, bytes), true, false) = (&op, raw.mode2 % 4 == 2, panics_only) {
+                let other = make_bytes(&DataSpec { kind: raw.data.kind.wrapping_add(3), len: raw.data.len / 2 + 1, seed: raw.data.seed.wrapping_add(9) });
+                // (on an overlay a removal under an open session leaves the re-published file behind
+                // its own whiteout marker: a state of the known session finding KF-3 in which later
+                // recursive removals fail half-way in listing order - not generated there)
+                let mid = if raw.mode % 4 == 2 && case.base.cfg.contains_overlay() { 3 } else { raw.mode % 4 };
+                let mid_name = ["a second append session", "create_file + write", "remove_file", "nothing"][mid as usize];
+                let sync_opened = {
+                    use std::io::Write;
+                    let vp = at(&s.root, path).map_err(|e| (step, e.to_string()))?;
+                    match vp.append_file() {
+                        Err(_) => false,
+                        Ok(mut h) => {
+                            match mid {
+                                0 => {
+                                    if let Ok(mut h2) = vp.append_file() {
+                                        let _ = h2.write_all(&other);
+                                    }
+                                }
+                                1 => {
+                                    if let Ok(mut h2) = vp.create_file() {
+                                        let _ = h2.write_all(&other);
+                                    }
+                                }
+                                2 => {
+                                    let _ = vp.remove_file();
+                                }
+                                _ => {}
+                            }
+                            let _ = h.write_all(bytes);
+                            let _ = h.flush();
+                            drop(h);
+                            true
+                        }
+                    }
+                };
+                let ss = snapshot(&s.root);
+                let targets: Vec<&vfs::async_vfs::AsyncVfsPath> = std::iter::once(&a.root).chain(ps.iter().map(|p| &p.root)).collect();
+                for t in targets {
+                    use async_std::io::WriteExt;
+                    let vp = aat(t, path).map_err(|e| (step, e.to_string()))?;
+                    let async_opened = match vp.append_file().await {
+                        Err(_) => false,
+                        Ok(mut h) => {
+                            match mid {
+                                0 => {
+                                    if let Ok(mut h2) = vp.append_file().await {
+                                        let _ = h2.write_all(&other).await;
+                                        let _ = h2.flush().await;
+                                    }
+                                }
+                                1 => {
+                                    if let Ok(mut h2) = vp.create_file().await {
+                                        let _ = h2.write_all(&other).await;
+                                        let _ = h2.flush().await;
+                                    }
+                                }
+                                2 => {
+                                    let _ = vp.remove_file().await;
+                                }
+                                _ => {}
+                            }
+                            let _ = h.write_all(bytes).await;
+                            let _ = h.flush().await;
+                            drop(h);
+                            true
+                        }
+                    };
+                    if sync_opened != async_opened {
+                        return Err((step, format!("append_file('{}') handle: sync {} but async {}", path, if sync_opened { "opens" } else { "fails" }, if async_opened { "opens" } else { "fails" })));
+                    }
+                    let sa = asnapshot(t).await;
+                    if sa.tree != ss.tree {
+                        return Err((step, format!("append session on '{}' ({} bytes) overlapping {} ({} bytes): async tree differs from sync tree: {:?}", path, bytes.len(), mid_name, other.len(), diff_trees(&ss.tree, &sa.tree))));
+                    }
+                }
+                trace.push(format!("append_file('{}') session overlapping {} on all twins", path, mid_name));
+                if sync_opened {
+                    st_overlap += 1;
                 }
                 model = ss.tree;
                 continue;
@@ -326,6 +413,7 @@ fn test(case: &Case, st: &mut Stats, counting: bool, nplans: usize, panics_only:
             facts.4 += p.pends_total.load(Ordering::Relaxed);
         }
         facts.6 = st_open;
+        overlap_total = st_overlap;
         Ok(())
     });
     drop(runtime);
@@ -345,6 +433,7 @@ fn test(case: &Case, st: &mut Stats, counting: bool, nplans: usize, panics_only:
                 st.label_n("pending_in_walk_metadata_futures", facts.3);
                 st.label_n("reader_scripts_compared", facts.5 as u64);
                 st.label_n("open_handle_create_sessions_observed", facts.6);
+                st.label_n("overlapping_append_sessions", overlap_total);
                 if nt {
                     st.nontrivial.insert(crate::util::fnv(serde_json::to_string(&case.base.to_json()).unwrap().as_bytes()) ^ case.plan_seed);
                 }
@@ -414,7 +503,7 @@ pub fn panic_part(ctx: &RunCtx) -> (Stats, Option<Failure>) {
     (stats, failure)
 }
 
-const RULE: &str = "typed C01/C09 histories vec(op,0..=28) on every stack available in both worlds (Mem, Phys, altroot, overlay incl. sub-path layers, nesting<=2, pre-populated layers) executed in lock-step on the sync stack, its async twin, and N further async twins whose leaf filesystems are wrapped in PendFS (every trait future and every read_dir stream item returns Pending 0..3 times per a generated plan; N=3 quick, 8 thorough); per call: same Ok/Err, same error class, equal values (walk results as multisets, async order must be parent-before-child); after every call identical full snapshots; read/seek scripts on async read handles compared call by call with the sync handles; tokio current-thread runtime; PLUS walk_dir streams (sync, async, async under a Pending plan) over generated trees with a directory removed after k items were pulled: the stream must terminate, yield no entry twice, yield every entry outside the removed directory, name only vanished entries in its error items and report each of them at most once, like the sync iterator; non-trivial = history with >=1 failing call and >=1 walk over >=2 nested directories, under a plan that returned Pending inside a read_dir future and inside a metadata future of that walk";
+const RULE: &str = "typed C01/C09 histories vec(op,0..=28) on every stack available in both worlds (Mem, Phys, altroot, overlay incl. sub-path layers, nesting<=2, pre-populated layers) executed in lock-step on the sync stack, its async twin, and N further async twins whose leaf filesystems are wrapped in PendFS (every trait future and every read_dir stream item returns Pending 0..3 times per a generated plan; N=3 quick, 8 thorough); per call: same Ok/Err, same error class, equal values (walk results as multisets, async order must be parent-before-child); after every call identical full snapshots; read/seek scripts on async read handles compared call by call with the sync handles; create sessions held open and observed meanwhile; append sessions that overlap a second append session / a re-creation / a removal of the same file before they write (same resulting trees); tokio current-thread runtime; PLUS walk_dir streams (sync, async, async under a Pending plan) over generated trees with a directory removed after k items were pulled: the stream must terminate, yield no entry twice, yield every entry outside the removed directory, name only vanished entries in its error items and report each of them at most once, like the sync iterator; non-trivial = history with >=1 failing call and >=1 walk over >=2 nested directories, under a plan that returned Pending inside a read_dir future and inside a metadata future of that walk";
 
 pub fn run(ctx: &RunCtx) -> i32 {
     let reg = crate::regress::run_for(&ctx.id, &replay);
